@@ -75,17 +75,25 @@ def modelledSites : List ((String × String × List String) × SiteClass) := [
 
 /-- facade-level cache dicts with their key expressions, the key of `cached_call`, the process-wide
     `lru_cache`, and the special methods of the recursion stub class (none of which is `__eq__`/`__hash__`
-    after fixes/C12-stub-identity.patch: stubs are compared by identity) -/
+    after fixes/C12-stub-identity.patch: stubs are compared by identity); the attributes assigned by every
+    `_calculate_derived` (the whole per-retort state: `Retort` of Cache.lean carries the four cache dicts, the router and
+    the error representors are functions of the recipe); the life cycle of the recursion stubs as `provide` models it:
+    the resolver - the holder of `_loc_to_stub` - is created in `_create_request_bus`, i.e. once per facade call
+    (`topProvide` starts every facade request with `loc := ⟨[], 0⟩`), `track_request` first counts the location in the stack and only then looks
+    at the registered stubs, `track_response` pops and binds -/
 def modelledFacadeCaches : List (String × String × String) := [
+  ("adaptix/_internal/conversion/facade/retort.py", "AdornedConversionRetort._calculate_derived", "derived state: _simple_converter_cache"),
   ("adaptix/_internal/conversion/facade/retort.py", "AdornedConversionRetort._calculate_derived", "self._simple_converter_cache = {}"),
   ("adaptix/_internal/conversion/facade/retort.py", "AdornedConversionRetort.get_converter", "retort._simple_converter_cache[(src, dst, name)]"),
   ("adaptix/_internal/conversion/facade/retort.py", "AdornedConversionRetort.get_converter", "retort._simple_converter_cache[(src, dst, name)]"),
+  ("adaptix/_internal/morphing/facade/retort.py", "AdornedRetort._calculate_derived", "derived state: _loader_cache, _dumper_cache"),
   ("adaptix/_internal/morphing/facade/retort.py", "AdornedRetort._calculate_derived", "self._loader_cache = {}"),
   ("adaptix/_internal/morphing/facade/retort.py", "AdornedRetort._calculate_derived", "self._dumper_cache = {}"),
   ("adaptix/_internal/morphing/facade/retort.py", "AdornedRetort.get_loader", "self._loader_cache[tp]"),
   ("adaptix/_internal/morphing/facade/retort.py", "AdornedRetort.get_loader", "self._loader_cache[tp]"),
   ("adaptix/_internal/morphing/facade/retort.py", "AdornedRetort.get_dumper", "self._dumper_cache[tp]"),
   ("adaptix/_internal/morphing/facade/retort.py", "AdornedRetort.get_dumper", "self._dumper_cache[tp]"),
+  ("adaptix/_internal/retort/base_retort.py", "BaseRetort._calculate_derived", "derived state: _full_recipe"),
   ("adaptix/_internal/retort/builtin_mediator.py", "BuiltinMediator.__init__", "self._call_cache = call_cache"),
   ("adaptix/_internal/retort/builtin_mediator.py", "BuiltinMediator.cached_call", "key = (func, *args, *kwargs.items())"),
   ("adaptix/_internal/retort/builtin_mediator.py", "BuiltinMediator.cached_call", "key in self._call_cache"),
@@ -93,8 +101,20 @@ def modelledFacadeCaches : List (String × String × String) := [
   ("adaptix/_internal/retort/builtin_mediator.py", "BuiltinMediator.cached_call", "result = func(*args, **kwargs)"),
   ("adaptix/_internal/retort/builtin_mediator.py", "BuiltinMediator.cached_call", "self._call_cache[key]"),
   ("adaptix/_internal/retort/operating_retort.py", "FuncWrapper", "methods: __init__, set_func"),
+  ("adaptix/_internal/retort/operating_retort.py", "LocatedRequestCallableRecursionResolver.track_request", "last_loc = request.last_loc"),
+  ("adaptix/_internal/retort/operating_retort.py", "LocatedRequestCallableRecursionResolver.track_request", "if sum((loc == last_loc for loc in request.loc_stack)) == 1: return None"),
+  ("adaptix/_internal/retort/operating_retort.py", "LocatedRequestCallableRecursionResolver.track_request", "if last_loc in self._loc_to_stub: return self._loc_to_stub[last_loc]"),
+  ("adaptix/_internal/retort/operating_retort.py", "LocatedRequestCallableRecursionResolver.track_request", "stub = FuncWrapper(last_loc)"),
+  ("adaptix/_internal/retort/operating_retort.py", "LocatedRequestCallableRecursionResolver.track_request", "self._loc_to_stub[last_loc] = stub"),
+  ("adaptix/_internal/retort/operating_retort.py", "LocatedRequestCallableRecursionResolver.track_request", "return stub"),
+  ("adaptix/_internal/retort/operating_retort.py", "LocatedRequestCallableRecursionResolver.track_response", "last_loc = request.last_loc"),
+  ("adaptix/_internal/retort/operating_retort.py", "LocatedRequestCallableRecursionResolver.track_response", "if last_loc in self._loc_to_stub: self._loc_to_stub.pop(last_loc).set_func(response)"),
+  ("adaptix/_internal/retort/operating_retort.py", "OperatingRetort._create_recursion_resolver", "creates: LocatedRequestCallableRecursionResolver()"),
+  ("adaptix/_internal/retort/searching_retort.py", "SearchingRetort._calculate_derived", "derived state: _request_cls_to_router, _request_cls_to_error_representor, _call_cache"),
   ("adaptix/_internal/retort/searching_retort.py", "SearchingRetort._calculate_derived", "self._call_cache = {}"),
-  ("adaptix/_internal/type_tools/normalize_type.py", "<module>", "lru_cache(maxsize=128)")
+  ("adaptix/_internal/retort/searching_retort.py", "SearchingRetort._create_request_bus", "creates: self._create_recursion_resolver(request_cls)"),
+  ("adaptix/_internal/type_tools/normalize_type.py", "<module>", "lru_cache(maxsize=128)"),
+  ("adaptix/_internal/utils.py", "Cloneable._calculate_derived", "derived state: ")
 ]
 
 /-- the constructors of `Key`, by name -/
